@@ -125,16 +125,16 @@ Proof. vm_compute. reflexivity. Qed.
 (* Lock scopes of the real header (tie A, tools/leaves/locks.py): the only accesses to queueList /
    freeList outside a named guard on their mutex are the deliberate `.empty()` pre-checks — one per
    consuming call and emptyQueue for queueList, one in doEnqueue for freeList — exactly the unlocked
-   reads the thread-level model has (IIf reads).  A dropped, unnamed or wrong-mutex guard changes
-   these lists. *)
+   reads the thread-level model has (IIf reads).  "f#n": f takes the mutex and still reaches the member n times
+   outside its guards; "f#*": f never takes the mutex.  A dropped, unnamed or wrong-mutex guard changes these lists. *)
 From Coq Require Import String.
 From EV.gen Require GenLocks.
 Local Open Scope string_scope.
 
 Theorem C06_lock_scopes_are_the_reviewed_ones :
-  GenLocks.queue_list_unguarded = ["clearEvents#1"; "emptyQueue#1"; "peekEvent#1"; "process#1"; "processIf#1"; "processOne#1"; "processUntil#1"; "takeEvent#1"] /\
+  GenLocks.queue_list_unguarded = ["clearEvents#1"; "emptyQueue#*"; "peekEvent#1"; "process#1"; "processIf#1"; "processOne#1"; "processUntil#1"; "takeEvent#1"] /\
   GenLocks.queue_freelist_unguarded = ["doEnqueue#1"] /\
-  GenLocks.heter_queue_list_unguarded = ["clearEvents#1"; "emptyQueue#1"; "process#1"; "processIf#1"; "processOne#1"] /\
+  GenLocks.heter_queue_list_unguarded = ["clearEvents#1"; "emptyQueue#*"; "process#1"; "processIf#*"; "processOne#1"] /\
   GenLocks.heter_queue_freelist_unguarded = ["doEnqueueItem#1"].
 Proof. repeat split; reflexivity. Qed.
 Print Assumptions C06_lock_scopes_are_the_reviewed_ones.
